@@ -86,6 +86,9 @@ def gen(rng, ntempl=None, allow_anon=True, branchpoints=True, xta_common=False):
                 else:
                     args.append(('const', marker()) if kind == 'val' else ('var', rng.choice(M.globals)))
             M.processes.append(dict(name='P%d_%d' % (ti, k), templ=T['name'], args=args, own=own))
+            if own and rng.random() < 0.5:
+                # a chain: the partial instance is instantiated again, which closes its own parameters
+                M.processes.append(dict(name='R%d_%d' % (ti, k), templ=T['name'], via='P%d_%d' % (ti, k), args=args, own=[], inner_own=list(own), chain_args=[('const', marker()) for _ in own]))
         if not T['params'] and rng.random() < 0.4:
             M.system.append(T['name'])
     for p in M.processes:
@@ -124,6 +127,9 @@ def system_text(M):
     s = ''
     for p in M.processes:
         own = p.get('own') or []
+        if p.get('via'):
+            s += '%s = %s(%s);\n' % (p['name'], p['via'], ', '.join(str(a[1]) for a in p['chain_args']))
+            continue
         s += '%s%s = %s(%s);\n' % (p['name'], '(%s)' % ', '.join('const int[0,1] %s' % q for q in own) if own else '', p['templ'], ', '.join(str(a[1]) for a in p['args']))
     sep = ' < ' if M.priorities else ', '
     return s + 'system %s;\n' % sep.join(M.system) if M.system else s + 'system ;\n'
@@ -236,6 +242,10 @@ def expected(M):
         if s in procs:
             p = procs[s]
             own = p.get('own') or []
+            if p.get('via'):
+                D['processes'].append((s, p['templ'], tuple((q, a[1]) for q, a in zip(p['inner_own'], p['chain_args'])) + tuple((pn, a[1]) for (pn, _), a in zip(tm[p['templ']]['params'], p['args'])),
+                                       len(p['inner_own']) + len(tm[p['templ']]['params']), 0))
+                continue
             D['processes'].append((s, p['templ'], tuple((pn, a[1]) for (pn, _), a in zip(tm[p['templ']]['params'], p['args'])), len(own) + len(tm[p['templ']]['params']), len(own)))
         else:
             D['processes'].append((s, s, (), len(tm[s]['params']), len(tm[s]['params'])))
